@@ -164,9 +164,10 @@ class SocketWrapper:
                 break
             if chunk_length != 0:
                 chunk = instream.read(chunk_length)
-                if len(chunk) != chunk_length:
-                    # premature end of chunk bytes
-                    partial = length_bytes + chunk
+                term = instream.read(2)  # CRLF which terminates chunk
+                if len(chunk) != chunk_length or len(term) != 2:
+                    # premature end of chunk bytes or chunk terminator
+                    partial = length_bytes + chunk + term
                     break
                 try:
                     if self._encoding & ENCODE_GZIP:
@@ -180,9 +181,9 @@ class SocketWrapper:
                     # parser will discard data
                 chunks += chunk
 
-            instream.readline()
             if chunk_length == 0:
                 # final chunk
+                instream.readline()
                 break
 
         return chunks, partial
